@@ -531,6 +531,9 @@ func isData(name string) bool {
 	return false
 }
 
+// the tool's own bookkeeping keys: the checkpoint and the hash that maps run ids to checkpoint names
+func isBook(k string) bool { return k == cpName || k == config.CheckpointKeyHashKey }
+
 func runScenario(sc *scenario, data []byte) result {
 	srv := fakeredis.New()
 	// the clock follows the wall clock (the tool converts absolute expiry times with its own clock) and advances at
@@ -606,7 +609,7 @@ func runScenario(sc *scenario, data []byte) result {
 	switch sc.fault {
 	case "targeterr":
 		srv.PreExec = func(connID int, db int, name string, args [][]byte, inMulti bool) (interface{}, fakeredis.Action) {
-			if isData(name) && len(args) > 0 && string(args[0]) != cpName {
+			if isData(name) && len(args) > 0 && !isBook(string(args[0])) {
 				if int(nData.Add(1)) == sc.faultAt {
 					return fakeredis.ErrRep("ERR injected target failure"), fakeredis.Proceed
 				}
@@ -617,7 +620,7 @@ func runScenario(sc *scenario, data []byte) result {
 		// withhold the reply of the faultAt-th data request until the whole snapshot has been parsed
 		// and the replay context has been cancelled
 		srv.Hold = func(connID int, name string, args [][]byte) <-chan struct{} {
-			if isData(name) && len(args) > 0 && string(args[0]) != cpName {
+			if isData(name) && len(args) > 0 && !isBook(string(args[0])) {
 				if int(nData.Add(1)) == sc.faultAt {
 					held.Store(true)
 					return gate
@@ -686,7 +689,7 @@ finished:
 	time.Sleep(3 * time.Millisecond) // keys replayed with the minimal ttl (already expired at the source) are gone by now
 	srv.Lock()
 	for _, e := range srv.Log {
-		if isData(e.Name) && len(e.Args) > 0 && string(e.Args[0]) != cpName {
+		if isData(e.Name) && len(e.Args) > 0 && !isBook(string(e.Args[0])) {
 			res.dataReqs++
 		}
 	}
@@ -710,6 +713,9 @@ finished:
 			}
 			if strings.HasPrefix(k, "redis-gunyu-bisync:") || strings.HasPrefix(k, cpName+":") {
 				continue // markers / records of the bidirectional path
+			}
+			if k == config.CheckpointKeyHashKey {
+				continue // run id -> checkpoint name, written with the checkpoint
 			}
 			if k == cpName {
 				if v.Type == "hash" {
